@@ -338,8 +338,22 @@ def iterator_source_harness(w, n):
 
     def h(ex):
         items = [ex.fresh_int('u64', 'item%d' % i) for i in range(n)]
-        src = ex.call_function(new, [ListIter(items)])
-        out = hlib.drive(ex, nxt, [src], n + 4)
+        if ex.env.get('native'):
+            runner, prof = ex.env['native']
+            ex.env['native_used'] = True
+            conc = [hlib.concrete_int(ex, x) for x in items]
+            txt = runner('iterator_source', [n] + conc)[prof]
+            ex.env['native_out'] = txt
+            if txt == 'PANIC' or txt.startswith(('BADARGS', 'UNKNOWN', 'NORESULT')):
+                raise Unsupported('native driver: ' + txt)
+            if txt.split()[-1:] == ['OVERRUN']:
+                raise Violation('IteratorSource does not terminate (native output: %s)' % txt, hlib._wit(ex))
+            out = [hlib.parse_token(t) for t in txt.split()]
+            ex.env['last_output'] = out
+            items = [Int('u64', c) for c in conc]
+        else:
+            src = ex.call_function(new, [ListIter(items)])
+            out = hlib.drive(ex, nxt, [src], n + 4)
         hlib.check_grammar(ex, out, 1, 'IteratorSource output')
         data = [e for e in out if e.variant == 'Item']
         if len(data) != n or any(a.fields[0].v is not b.v and str(a.fields[0].v) != str(b.v) for a, b in zip(data, items)):
